@@ -34,6 +34,12 @@ fn main() {
             "run" => run::run(&fields[1..]),
             "runfail" => run::runfail(&fields[1..]),
             "rung" => run::rung(&fields[1..]),
+            "compilebc" => run::compilebc(&fields[1..]),
+            "det" => run::det(&fields[1..]),
+            "reuse" => run::reuse(&fields[1..]),
+            "timecreate" => run::timecreate(&fields[1..]),
+            "print" => run::print(&fields[1..]),
+            "printmc" => run::printmc(&fields[1..]),
             "runs" => run::runs(&fields[1..]),
             "dumpir" => run::dumpir(&fields[1..]),
             "dumpbc" => run::dumpbc(&fields[1..]),
